@@ -222,6 +222,38 @@ Example ex_stream_runs_retry :
                          (repeat (SevNext 0%nat) 9)) = true.
 Proof. vm_compute. reflexivity. Qed.
 
+(* a source that ignores the context (SScriptNC): a Next with an expired context is answered
+   like a live one, and no combinator looks at the context itself - Filter hands over what it
+   pulled (dropping 2 on the way), the transient error costs nothing *)
+Example ex_stream_nc_source :
+  check_stream (inl (ZSrc 0 (SScriptNC [EvItem 7; EvTransient 9; EvFatal 8; EvItem 1])),
+                Steps [CNext false; CNext false; CNext false; CNext true; CClose],
+                mkRunObs [so (RItem (IZ 7)) [1]; so (RErr 9) [2]; so (RErr 8) [3];
+                          so (RErr 8) [4]; so RUnit [4]]
+                         (repeat (SevNext 0%nat) 4 ++ [SevClose 0%nat])) = true.
+Proof. vm_compute. reflexivity. Qed.
+
+Example ex_stream_filter_nc :
+  check_stream (inl (ZFilter (PrModEq 2 1) never_fails
+                       (ZSrc 0 (SScriptNC [EvItem 1; EvItem 2; EvItem 3; EvTransient 9;
+                                           EvItem 5]))),
+                Steps [CNext false; CNext false; CNext true; CNext false; CNext false; CClose],
+                mkRunObs [so (RItem (IZ 1)) [1]; so (RItem (IZ 3)) [3]; so (RErr 9) [4];
+                          so (RItem (IZ 5)) [5]; so REnd [6]; so RUnit [6]]
+                         (repeat (SevNext 0%nat) 6 ++ [SevClose 0%nat])) = true.
+Proof. vm_compute. reflexivity. Qed.
+
+(* Flatten's outer stream is a FromIterator and does look at the context: with an expired
+   context the current inner stream is still read (and closed when it ends), but no new inner
+   stream is obtained *)
+Example ex_stream_flatten_nc :
+  check_stream (inl (ZFlatten [ZSrc 0 (SScriptNC [EvItem 1]); ZSrc 1 (SScriptNC [EvItem 2])]),
+                Steps [CNext false; CNext true; CNext false; CNext false; CNext true],
+                mkRunObs [so (RErr (-1)) [0;0]; so (RItem (IZ 1)) [1;0]; so (RErr (-1)) [2;0];
+                          so (RErr (-1)) [2;0]; so (RItem (IZ 2)) [2;1]]
+                         [SevNext 0; SevNext 0; SevClose 0; SevNext 1]%nat) = true.
+Proof. vm_compute. reflexivity. Qed.
+
 (* a wrong observation is rejected *)
 Example ex_reject :
   check_stream (inl (ZSrc 0 (SSlice [4])), Reduce ROne true,
